@@ -33,7 +33,8 @@ def Request.sem : Request → Option Spec.ReqMeaning
   | .custom fc d => some (.custom fc.value d)
   | _ => none
 
-/-- meaning of a response -/
+/-- meaning of a response.  `ReadExceptionStatus(s)` is the one RTU-only kind both the encoder and the
+    decoder implement: its wire form is `07 s`, which the decoder reads back as `ReadExceptionStatus(s)`. -/
 def Response.sem : Response → Option Spec.RspMeaning
   | .readCoils c => c.items.map .readCoils
   | .readDiscreteInputs c => c.items.map .readDiscreteInputs
@@ -45,6 +46,7 @@ def Response.sem : Response → Option Spec.RspMeaning
   | .writeMultipleCoils a q => some (.writeMultipleCoils a q)
   | .writeMultipleRegisters a q => some (.writeMultipleRegisters a q)
   | .custom fc d => some (.custom fc.value d)
+  | .readExceptionStatus s => some (.readExceptionStatus s)
   | _ => none
 
 /-- a coil list rounded up to whole bytes with the padding coils off: what a coil *response* means
@@ -59,5 +61,15 @@ def Spec.RspMeaning.padded : Spec.RspMeaning → Spec.RspMeaning
 
 /-- function codes the request decoder models as a dedicated kind -/
 def modelledReqCodes : List UInt8 := [0x01, 0x02, 0x03, 0x04, 0x05, 0x06, 0x0F, 0x10, 0x17]
+
+/-- function codes the RESPONSE decoder models as a dedicated kind: the nine above and 0x07
+    (Read Exception Status), which `Response::try_from` reads as `ReadExceptionStatus(status)` -/
+def modelledRspCodes : List UInt8 := modelledReqCodes ++ [0x07]
+
+theorem modelledRspCodes_eq :
+    modelledRspCodes = [0x01, 0x02, 0x03, 0x04, 0x05, 0x06, 0x0F, 0x10, 0x17, 0x07] := rfl
+
+theorem not_mem_modelledReqCodes_of_rsp {c : UInt8} (h : c ∉ modelledRspCodes) : c ∉ modelledReqCodes :=
+  fun hc => h (List.mem_append_left _ hc)
 
 end Modbus
